@@ -166,8 +166,12 @@ def ref_ok(prop, r):
         if not p:
             return False
         got = p[0][2:]
+        if got.startswith("err(query") or got.startswith("err(header"):
+            return True  # the query / header block failed first: C04's matter, the path block never ran
         if params.startswith("ok"):
-            return got == params
+            gp = re.search(r"Path\[[^\]]*\]", got)
+            rp = re.search(r"Path\[[^\]]*\]", params)
+            return got.startswith("ok") and (gp.group(0) if gp else "") == (rp.group(0) if rp else "")
         m = re.match(r"err\(path,([0-9a-f]*),(\w+)\)", got)
         if not m:
             return False
